@@ -217,6 +217,50 @@ def h_readlist(cname, n, fmt_kind, peek):
     return h
 
 
+def h_readlist_golomb(cname, n, peek):
+    """readlist / peeklist over self-delimiting tokens: each item is decoded by the reference decoder at the running position"""
+    def h(K):
+        import bitstring
+        import bitarray.util as U
+        from harness.c10 import REF_DEC
+        cls, x, pos, s = _obj(K, cname, n)
+        fmt = K.choice('fmt', ['uint:2, ue, se', 'ue, uie', 'sie, bits:1, ue', 'se'])
+        r = call(lambda: (s.peeklist if peek else s.readlist)(fmt))
+        if not _valid_pos(K, s, n):
+            return False
+        p = K.conc(pos)
+        exp = []
+        for tok in [t.strip() for t in fmt.split(',')]:
+            if tok in REF_DEC:
+                d = REF_DEC[tok](K, x, p)
+                if d is None:
+                    exp = None
+                    break
+                exp.append(d[0])
+                p = d[1]
+            else:
+                L_ = int(tok.split(':')[1])
+                if p + L_ > n:
+                    exp = None
+                    break
+                seg = x[p:p + L_]
+                exp.append(('bits', seg) if tok.startswith('bits') else U.ba2int(seg))
+                p += L_
+        if exp is None:
+            return K.check((not r.ok) and isinstance(r.exc, bitstring.ReadError) and _unchanged(K, s, x, pos), 'truncated item in readlist must raise ReadError and leave pos unchanged',
+                           exc=r.excname, got=r.value, pos=s._pos)
+        if not r.ok:
+            return K.fail('readlist raised', exc=r.excname, fmt=fmt)
+        if len(r.value) != len(exp):
+            return K.fail('wrong number of items')
+        for g, e in zip(r.value, exp):
+            ok = (same(raw(g), e[1]) if isinstance(e, tuple) else (g == e))
+            if not K.check(ok, 'readlist item value', got=g):
+                return False
+        return K.check(s._pos == (pos if peek else p) and same(raw(s), x), 'position after readlist/peeklist over self-delimiting tokens', got=s._pos, expected=p)
+    return h
+
+
 def h_setpos(cname, n, which):
     def h(K):
         import bitstring
@@ -553,6 +597,10 @@ def conditions(tier):
                         continue
                     add(f"C06.{'peeklist' if peek else 'readlist'}[{c},{fk},n={n}]", h_readlist(c, n, fk, peek),
                         f'all {n}-bit contents x all positions x symbolic counts in [-2,{n + 2}]; format kind {fk}', D_READ, n=n, cls=c)
+        for n in ([7] if q else [0, 5, 7, 10]):
+            for peek in (False, True):
+                add(f"C06.{'peeklist' if peek else 'readlist'}-golomb[{c},n={n}]", h_readlist_golomb(c, n, peek),
+                    f'all {n}-bit contents x all positions; 4 formats mixing ue/se/uie/sie with fixed tokens', D_READ, n=n, cls=c)
         for n in ([0, 9, 16] if q else [0, 1, 8, 9, 16, 17, 24]):
             for which in ('pos', 'bitpos', 'bytepos'):
                 add(f'C06.set-{which}[{c},n={n}]', h_setpos(c, n, which), f'all {n}-bit contents x all positions x every Python int', D_POS, n=n, cls=c)
